@@ -56,7 +56,7 @@ func info(o *goja.Object) string {
 
 func newVM() *goja.Runtime {
 	vm := goja.New()
-	t := time.AfterFunc(20*time.Second, func() { vm.Interrupt("timeout") })
+	t := time.AfterFunc(180*time.Second, func() { vm.Interrupt("timeout") })
 	_ = t
 	return vm
 }
@@ -263,7 +263,7 @@ func runSort(js string) string {
 		case "grow":
 			m = "if(calls==2){a[a.length+5]=undefined}"
 		case "sparse":
-			m = "if(calls==2){a[90000]=1;delete a[90000]}"
+			m = "if(calls==2){var L0=a.length;a[90000]=1;delete a[90000];a.length=L0}"
 		case "throw":
 			m = "if(calls==3){throw new RangeError('cmp')}"
 		}
@@ -302,12 +302,13 @@ function state(o){var ks=Reflect.ownKeys(o).filter(function(k){return typeof k==
  return "len="+o.length+";"+ks.map(function(k){var d=Object.getOwnPropertyDescriptor(o,k);return k+"="+(('value' in d)?ser(d.value,o,1):"acc")+(d.writable===false?"!w":"")+(d.configurable?"":"!c")+(d.enumerable?"":"!e")}).join(",")}
 function setLen(o,n){if(Array.isArray(o)){o.length=n;return}var ks=Object.keys(o);for(var i=0;i<ks.length;i++){var k=ks[i];if(String(k>>>0)===k&&(k>>>0)>=n)delete o[k]}o.length=n}
 function put(o,i,v){o[i]=v;if(!Array.isArray(o)&&o.length<=i)o.length=i+1}
+function dp(o,i,v){Object.defineProperty(o,i,{value:v,writable:true,enumerable:true,configurable:true})} // CreateDataProperty: never consults the prototype chain
 function build(kind,spec){ // spec elems: "_" hole | number | "u" | ["t",id] | ["acc",v] | ["nc",v]
  var a=(kind.indexOf("arraylike")===0)?{}:[];
  if(kind==="sparse"||kind==="sparse-frozen"||kind==="sparse-nonext"){a[70000]=1;delete a[70000];a.length=0}
  for(var i=0;i<spec.length;i++){var s=spec[i];if(s==="_")continue;
-  if(s==="u")a[i]=undefined;else if(typeof s==="number")a[i]=s;
-  else if(s[0]==="t")a[i]=new TAG(s[1]);
+  if(s==="u")dp(a,i,undefined);else if(typeof s==="number")dp(a,i,s);
+  else if(s[0]==="t")dp(a,i,new TAG(s[1]));
   else if(s[0]==="acc")(function(v){Object.defineProperty(a,i,{get:function(){return v},set:function(x){},enumerable:true,configurable:true})})(s[1]);
   else if(s[0]==="nc")Object.defineProperty(a,i,{value:s[1],writable:true,enumerable:true,configurable:false});}
  if(Array.isArray(a)){ if(a.length<spec.length) a.length=spec.length } else { a.length=spec.length; Object.setPrototypeOf(a,Array.prototype); a[Symbol.isConcatSpreadable]=true }
@@ -342,7 +343,16 @@ func runMeth(js string) string {
 		}
 		for _, p := range c.Proto {
 			pp := p.([]interface{})
-			vm.RunString(fmt.Sprintf("Array.prototype[%v]=%v;", pp[0], pp[1]))
+			if acc, ok := pp[1].([]interface{}); ok && len(acc) == 2 {
+				if acc[0] == "ro" { // a read-only inherited data property: ["ro", v]
+					vm.RunString(fmt.Sprintf("Object.defineProperty(Array.prototype,%v,{value:%v,writable:false,enumerable:true,configurable:true});", pp[0], acc[1]))
+					continue
+				}
+				// an indexed ACCESSOR on the prototype chain: ["acc", v]
+				vm.RunString(fmt.Sprintf("Object.defineProperty(Array.prototype,%v,{get:function(){return %v},set:function(x){},enumerable:true,configurable:true});", pp[0], acc[1]))
+			} else {
+				vm.RunString(fmt.Sprintf("Array.prototype[%v]=%v;", pp[0], pp[1]))
+			}
 		}
 		sb, _ := json.Marshal(c.Spec)
 		ab, _ := json.Marshal(c.Args)
